@@ -61,6 +61,20 @@ var c16Positions = []c16pos{
 	{"ADD", "update", "ADD W :n"},
 	{"DELETE", "update", "DELETE W :ss"},
 	{"SET-path-base", "update", "SET W.x = :v"},
+	// positions that an evaluator could skip once the outcome is decided (z holds :v in the first item)
+	{"in-member-after-match", "cond", "z IN (:v, W)"},
+	{"in-member-before", "cond", "z IN (W, :v)"},
+	{"OR-right-after-true", "cond", "z = :v OR W = :v"},
+	{"AND-right-after-false", "cond", "z <> :v AND W = :v"},
+	{"between-upper", "cond", "z BETWEEN :v AND W"},
+	{"between-lower", "cond", "z BETWEEN W AND :v"},
+	{"begins_with-operand", "cond", "begins_with(z, W)"},
+	{"contains-operand", "cond", "contains(z, W)"},
+	{"size-right", "cond", ":n = size(W)"},
+	{"SET-second-action", "update", "SET z = :v, W = :v"},
+	{"REMOVE-second", "update", "REMOVE z, W"},
+	{"if_not_exists-default", "update", "SET z = if_not_exists(z, W)"},
+	{"SET-after-REMOVE", "update", "REMOVE z SET y = W"},
 }
 
 var c16AllValues = map[string]val.V{":v": val.S("v"), ":t": val.S("S"), ":n": val.N("1"), ":l": val.L(val.S("e")), ":ss": val.SS("e")}
